@@ -46,7 +46,8 @@ def cps(s):
 def call(fn, s, plus=False, default=None):
     """One public call on the real code -> event (the trace judge's record format)."""
     from falcon import uri
-    e = {'fn': fn, 's': cps(s), 'plus': bool(plus), 'out': [], 'out2': [], 'port': -1, 'err': False, 'exc': ''}
+    e = {'fn': fn, 's': cps(s), 'plus': bool(plus), 'out': [], 'out2': [], 'port': -1, 'err': False, 'alt': [],
+         'exc': ''}
     try:
         if fn == 'decode':
             out = uri.decode(s, unquote_plus=plus)
@@ -58,6 +59,11 @@ def call(fn, s, plus=False, default=None):
                 raise TypeError('parse_host returned %r' % ((host, port),))
             e['port'] = port
             out = host
+            try:        # the same authority with a port spelled: the host must not depend on it (judged by TLC)
+                h2 = uri.parse_host(s + ':8042')[0]
+                e['alt'] = cps(h2) if isinstance(h2, str) else [-1]
+            except Exception:
+                e['alt'] = [-1]
         else:
             f = getattr(uri, fn)
             out = f(s)
@@ -68,7 +74,7 @@ def call(fn, s, plus=False, default=None):
         e['out'] = cps(out)
     except Exception as ex:  # the property promises totality
         e['err'] = True
-        e['out'], e['out2'], e['port'] = [], [], -1
+        e['out'], e['out2'], e['port'], e['alt'] = [], [], -1, []
         e['exc'] = repr(ex)[:200]
     return e
 
@@ -165,6 +171,8 @@ def run(ctx):
             ok = not e['err'] and e['out'] == c['out'] and e['port'] == c['port']
             if ok and fn.endswith('check_escaped'):
                 ok = e['out2'] == e['out']
+            if ok and fn == 'parse_host' and c['valid'] and c['port'] == -1:
+                ok = e['alt'] == e['out']
             if not ok:
                 suspects.append(e)
     ctx.traces_validated += len(cases)
@@ -295,7 +303,8 @@ def run(ctx):
                      key=(fn, plus, s))
     # authorities beyond the enumerated ones: random hosts x ports
     hosts = ['example.com', 'a.b.c', '', 'localhost', '127.0.0.1', '[::1]', '[::]', '[1::]', '[a::1]', '[1:a::]',
-             '[2001:db8:85a3:8d3:1319:8a2e:370:7348]', '[::ffff:192.0.2.128]', '[v1.fe80::a+en1]', 'xn--bcher-kva.example',
+             '[2001:db8:85a3:8d3:1319:8a2e:370:7348]', '[::ffff:192.0.2.128]', '[v1.fe80::a+en1]', '[v1.fe80]',
+             '[vF.host-1~x]', '[v1.a]', '[V7.x:y;z=1]', '[vAB.~]', 'xn--bcher-kva.example',
              "sub!$&'()*+,;=x", '%E4%BD%A0.example', 'a-b_c~d.e', '[1:2:3:4:5:6:7:8]', '[fe80::1%25en0]']
     for h in hosts:
         for p in ['', '0', '1', '80', '443', '8080', '65535', '00080', '999999'] + \
